@@ -6,7 +6,7 @@ from vf.scen import Scenario, run_scenarios
 from harness import matkit
 
 PROPERTY = 'C11'
-ENCODED = ['scinumtools.materials.composite:Composite._norm', 'scinumtools.materials.composite:Composite._data', 'scinumtools.materials.composite:Composite.add',
+ENCODED = ['scinumtools.materials.material:Material.__add__', 'scinumtools.materials.material:Material.__rmul__', 'scinumtools.materials.composite:Composite._add', 'scinumtools.materials.composite:Composite._multiply', 'scinumtools.materials.material_solver:MaterialSolver.preprocess', 'scinumtools.materials.composite:Composite._norm', 'scinumtools.materials.composite:Composite._data', 'scinumtools.materials.composite:Composite.add',
            'scinumtools.materials.material:Material.__init__', 'scinumtools.materials.material:Material.data_composite',
            'scinumtools.materials.substance:Substance.data_composite', 'scinumtools.materials.substance:Substance.__init__']
 EXPLANATION = ("Proportions n_i > 0 and the common scale c > 0 are solver variables; the real Material/Substance constructors, Composite._norm and _data run on proxies "
@@ -28,6 +28,73 @@ def sub_mass(formula, natural):
     for sp, cnt in _re.findall(r'([A-Z][a-z]?(?:\\{[0-9+-]+\\})?)([0-9]*)', formula):
         tot += species_data(sp, natural)[0] * (int(cnt) if cnt else 1)
     return tot
+'''
+PRE += '''
+def check_fractions(O, out, tag, m, subs, ns, norm, natural):
+    d = m.data_composite(quantity=False)
+    ms = [m.components[s].component_mass.value('Da') for s in subs]
+    out.append((f'{tag}: component set', O.same(sorted(m.components.keys()), sorted(subs))))
+    for s, mi in zip(subs, ms):
+        out.append((f'{tag}: component mass of {s}', O.eq(mi, sub_mass(s, natural), 1e-9)))
+    xs = [d[s].x for s in subs]; Xs = [d[s].X for s in subs]
+    out.append((f'{tag}: sum x = 100', O.eq(d['sum'].x, 100, 1e-9)))
+    out.append((f'{tag}: sum X = 100', O.eq(d['sum'].X, 100, 1e-9)))
+    for i in range(len(ns)):
+        for j in range(i + 1, len(ns)):
+            if norm == 'MASS_FRACTION':
+                out.append((f'{tag}: X[{i}]:X[{j}] = w{i}:w{j}', O.close(Xs[i] * ns[j], Xs[j] * ns[i])))
+                out.append((f'{tag}: x[{i}]:x[{j}] = w/m', O.close(xs[i] * ns[j] * ms[i], xs[j] * ns[i] * ms[j])))
+            else:
+                out.append((f'{tag}: x[{i}]:x[{j}] = n{i}:n{j}', O.close(xs[i] * ns[j], xs[j] * ns[i])))
+                out.append((f'{tag}: X[{i}]:X[{j}] = nm', O.close(Xs[i] * ns[j] * ms[j], Xs[j] * ns[i] * ms[i])))
+    return xs, Xs
+'''
+API_SRC = '''
+def run(v, O):
+    out = []
+    a, b, c = v.subs
+    nt = NORMS[v.norm]
+    # built step by step, the last add() tops up a component that is already there
+    m = Material(natural=v.natural, norm_type=nt)
+    m.add(a, v.n1); m.add(b, v.n2); m.add(a, v.n3)
+    check_fractions(O, out, 'add() sequence', m, [a, b], [v.n1 + v.n3, v.n2], v.norm, v.natural)
+    # sum of two materials sharing a component
+    m1 = Material({a: v.n1, b: v.n2}, natural=v.natural, norm_type=nt)
+    m2 = Material({c: v.n3, a: v.n4}, natural=v.natural, norm_type=nt)
+    s = m1 + m2
+    check_fractions(O, out, 'm1 + m2', s, [a, b, c], [v.n1 + v.n4, v.n2, v.n3], v.norm, v.natural)
+    # scaling with the operator
+    xs1, Xs1 = check_fractions(O, out, 'm1', m1, [a, b], [v.n1, v.n2], v.norm, v.natural)
+    k = v.c * m1
+    xs2, Xs2 = check_fractions(O, out, 'c * m1', k, [a, b], [v.c * v.n1, v.c * v.n2], v.norm, v.natural)
+    for i in (0, 1):
+        out.append((f'c * m1: x[{i}] unchanged', O.close(xs2[i], xs1[i])))
+        out.append((f'c * m1: X[{i}] unchanged', O.close(Xs2[i], Xs1[i])))
+    # the same mixture written as an expression string
+    t = Material(f'{O.lit(v.n1)} <{a}> {O.lit(v.n2)} <{b}>', natural=v.natural, norm_type=nt)
+    xs3, Xs3 = check_fractions(O, out, 'string form', t, [a, b], [v.n1, v.n2], v.norm, v.natural)
+    for i in (0, 1):
+        out.append((f'string form: x[{i}] = dict form', O.close(xs3[i], xs1[i])))
+        out.append((f'string form: X[{i}] = dict form', O.close(Xs3[i], Xs1[i])))
+    return out
+'''
+SUBAPI_SRC = '''
+def run(v, O):
+    out = []
+    s = Substance(v.formula, natural=v.natural)
+    s.add(v.extra, v.n1)
+    d = s.data_composite(quantity=False)
+    out.append(('substance.add: sum x = 100', O.eq(d['sum'].x, 100, 1e-9)))
+    out.append(('substance.add: sum X = 100', O.eq(d['sum'].X, 100, 1e-9)))
+    t = Substance(v.formula, natural=v.natural) + Substance(v.formula2, natural=v.natural)
+    d = t.data_composite(quantity=False)
+    out.append(('substance + substance: sum x = 100', O.eq(d['sum'].x, 100, 1e-9)))
+    out.append(('substance + substance: sum X = 100', O.eq(d['sum'].X, 100, 1e-9)))
+    u = Substance(v.formula, natural=v.natural) * v.n1
+    d = u.data_composite(quantity=False)
+    out.append(('substance * k: sum x = 100', O.eq(d['sum'].x, 100, 1e-9)))
+    out.append(('substance * k: sum X = 100', O.eq(d['sum'].X, 100, 1e-9)))
+    return out
 '''
 MAT_SRC = '''
 def run(v, O):
@@ -120,6 +187,13 @@ def scenarios(tier, seed):
         sp = rnd.sample(['H', 'O', 'C', 'Fe', 'U{238}', 'Cl', 'Na{+}', 'D', '[p]', 'Ca{42}', 'N', 'Si'], 3 if r % 2 else 2)
         S.append(Scenario(f'substance/{r}', SUBST_SRC, {'n1': 'real', 'n2': 'real', 'n3': 'real'}, ['v.n1 > 0', 'v.n2 > 0', 'v.n3 > 0'],
                           consts={'species': sp, 'natural': r % 3 != 0}, preamble=PRE, what=f'substance of {sp}', samples=1))
+    for r, norm in enumerate(['NUMBER_FRACTION', 'NUMBER', 'MASS_FRACTION'] * (1 if tier == 'quick' else 3)):
+        subs = rnd.sample(SUBS, 3)
+        S.append(Scenario(f'api/{norm}/{r}', API_SRC, {'n1': 'count', 'n2': 'count', 'n3': 'count', 'n4': 'count', 'c': 'count'},
+                          consts={'subs': subs, 'norm': norm, 'natural': r % 2 == 1}, preamble=PRE, what=f'add()/+/c*/string forms of a {norm} material of {subs}', samples=1))
+    for r, (f1, ex, f2) in enumerate([('H2O', 'O', 'H2'), ('CH3', 'H', 'COOH'), ('NaCl', 'Na', 'Cl2')]):
+        S.append(Scenario(f'subapi/{r}', SUBAPI_SRC, {'n1': 'count'}, consts={'formula': f1, 'extra': ex, 'formula2': f2, 'natural': r % 2 == 0}, preamble=PRE,
+                          what=f'Substance.add / + / * on {f1}', samples=1))
     S.append(Scenario('canary/sum', MAT_SRC.replace("O.eq(d['sum'].x, 100, 1e-9)", "O.eq(d['sum'].x, 100.001, 1e-9)"), {'n1': 'real', 'n2': 'real', 'c': 'real'},
                       ['v.n1 > 0', 'v.n2 > 0', 'v.c > 0'], consts={'subs': ['H2O', 'CO2'], 'norm': 'NUMBER_FRACTION', 'natural': True}, preamble=PRE, canary=True))
     S.append(Scenario('canary/prop', MAT_SRC.replace("O.close(xs[i] * ns[j], xs[j] * ns[i])", "O.close(xs[i] * ns[j], 1.001 * xs[j] * ns[i])"), {'n1': 'real', 'n2': 'real', 'c': 'real'},
